@@ -1207,6 +1207,7 @@ void SZ_decompress_ts(unsigned char *bytes, size_t bytesLength)
 	if(exe_params==NULL)
 		exe_params = (sz_exedata*)malloc(sizeof(sz_exedata));
 	memset(exe_params, 0, sizeof(sz_exedata));
+	exe_params->SZ_SIZE_TYPE = 8; //as SZ_decompress does: the unwrap buffer of a verbatim step is sized with it before the stream header is parsed
 
 	int x = 1;
 	char *y = (char*)&x;
@@ -1282,6 +1283,7 @@ void SZ_decompress_ts_select_var(unsigned char* var_ids, unsigned char var_count
 	if(exe_params==NULL)
 		exe_params = (sz_exedata*)malloc(sizeof(sz_exedata));
 	memset(exe_params, 0, sizeof(sz_exedata));
+	exe_params->SZ_SIZE_TYPE = 8; //as SZ_decompress does: the unwrap buffer of a verbatim step is sized with it before the stream header is parsed
 
 	int x = 1;
 	char *y = (char*)&x;
